@@ -101,6 +101,12 @@ def padding_package(rng=None, n_random=0):
             wrap = rng.choice(["plain", "vec", "dynarr", "arr"]) if not layout_only else rng.choice(["plain", "vec"])
             steps.append(("r%d" % i, {"plain": r, "vec": vec(r), "dynarr": T("dynarr", r.spell + "[]", e=r),
                                       "arr": T("arr", r.spell + "[,]", rank=2, e=r)}[wrap], False))
+    # nullable unions with several cases, named and inline: the tag byte counts the null case, the case classes of a target
+    # language may number their cases differently
+    d.append(("Un", "Un: [null, int32, int64]"))
+    un = T("union", "Un", has_null=True, cases=[prim("int32"), prim("int64")], tags=["int32", "int64"])
+    ui = T("union", "[null, float32, string, uint8]", has_null=True, cases=[prim("float32"), prim("string"), prim("uint8")], tags=["float32", "string", "uint8"])
+    steps += [("un", un, False), ("uns", vec(un), False), ("ust", un, True), ("ui", ui, True)]
     pkg.protocols.append(("Ppad", steps))
     pkg.records = recs
     return pkg
